@@ -219,6 +219,11 @@ func check(h hist, steps []step) ([]viol, stats) {
 				trie = fmt.Sprint(*rd.Trie)
 			}
 			if rd.Seen != nil && ghost[rd.Key][*rd.Seen] {
+				add("C07:failed-txn-left-trace-in-cache", "txn %d read node %d through the state context (transaction cache / block cache / state cache) and got %s, a value written by an earlier transaction that failed or was rejected; the trie holds %s", i, rd.Key, seen, trie)
+			} else {
+				add("C07:context-read-differs-from-trie", "txn %d read node %d through the state context and got %s; the trie holds %s", i, rd.Key, seen, trie)
+			}
+			if rd.Seen != nil && ghost[rd.Key][*rd.Seen] {
 				add("C02:later-read-sees-discarded-write", "txn %d read node %d through the state context and saw %s, a value written by an earlier call that failed; the trie holds %s", i, rd.Key, seen, trie)
 			} else {
 				add("C02:context-read-differs-from-trie", "txn %d read node %d through the state context and saw %s; the trie holds %s", i, rd.Key, seen, trie)
@@ -673,7 +678,7 @@ type profile struct {
 func profileFor(prop string, o vh.Opts) profile {
 	p := profile{maxTxns: o.N(12, 40), nonceNoise: 12, failMode: 25, edgeAmt: 14, multiT: 40, edgyHist: 25, orderQ: 6}
 	switch prop {
-	case "C02":
+	case "C02", "C07":
 		p.failMode = 55
 	case "C03":
 		p.nonceNoise = 40
@@ -1276,6 +1281,7 @@ func main() {
 		"C02": "at least one contract call failed chargeably after it had written nodes (plain and cacheable), queued transfers or emitted events, and was applied, and at least one call read nodes through the state context",
 		"C03": "at least one transaction was applied and at least one was rejected for its nonce",
 		"C04": "at least one applied transaction carried two or more transfers",
+		"C07": "at least one call that failed or was rejected had written a cacheable node and at least one call read nodes through the state context (real StateCache, one BlockCache per block)",
 		"C05": "at least one applied transaction moved tokens and at least one transaction was rejected for funds (overdraft / overflow)",
 	}
 	rep.Rule = "adaptive random histories of 1-" + fmt.Sprint(profileFor(prop, o).maxTxns) + " transactions (send / data / script-contract calls with 0-6 scripted writes, deletes, " +
@@ -1360,6 +1366,8 @@ func main() {
 			nontriv = st.appliedMoved > 0 && st.rejected > 0
 		case "C02":
 			nontriv = st.chargeableDirty > 0 && st.reads > 0
+		case "C07":
+			nontriv = st.ghostWrites > 0 && st.reads > 0
 		case "C03":
 			nontriv = st.applied > 0 && st.nonceRej > 0
 		case "C04":
@@ -1402,7 +1410,9 @@ func main() {
 
 	var rh hist
 	if o.LoadReplay(&rh) {
-		handle(rh, true)
+		if len(rh.Txns) > 0 || rh.Genesis != nil || rh.Classify != nil { // else: another engine's replay
+			handle(rh, true)
+		}
 		finish()
 		return
 	}
@@ -1463,7 +1473,7 @@ func main() {
 	}
 	// an empty trie: updateState refuses every transaction (root node not found)
 	handle(hist{Fee: true, Txns: []chainh.Txn{{Type: 10, From: 3, To: 4, Nonce: 1, Round: 1}, {Type: 0, From: 3, To: 4, Value: 1, Nonce: 1, Round: 1}}}, true)
-	if prop == "C03" || prop == "C02" {
+	if prop == "C03" || prop == "C02" || prop == "C07" {
 		hs := exhaustiveNonces()
 		for i, h := range hs {
 			handle(h, i%2 == int(o.Seed%2) || o.Thorough())
